@@ -2,7 +2,7 @@ use crate::optimizer::PassAction;
 use boa_ast::{
     Expression, Spanned,
     expression::literal::LiteralKind,
-    statement::{If, Statement},
+    statement::{If, Statement, iteration::IterableLoopInitializer},
     visitor::{VisitWith, Visitor},
 };
 use core::ops::ControlFlow;
@@ -21,6 +21,18 @@ impl<'ast> Visitor<'ast> for ContainsHoistedDeclarationsVisitor {
     ) -> ControlFlow<Self::BreakTy> {
         self.found = true;
         ControlFlow::Break(())
+    }
+
+    fn visit_iterable_loop_initializer(
+        &mut self,
+        node: &'ast IterableLoopInitializer,
+    ) -> ControlFlow<Self::BreakTy> {
+        // `for (var x in ...)` / `for (var x of ...)` declare `x` without a `VarDeclaration` node.
+        if matches!(node, IterableLoopInitializer::Var(_)) {
+            self.found = true;
+            return ControlFlow::Break(());
+        }
+        ControlFlow::Continue(())
     }
 
     fn visit_function_declaration(
